@@ -290,6 +290,7 @@ def run(tier, seed):
                 ops.insert(rng.randrange(len(ops) + 1), ('addunnamed', rng.choice(['abc', 'abc^def']), rng.choice(['add', 'append', 'parent'])))
             hj.append((v, seg, ops))
     rs = vlib.pmap(both_seg, sj, chunk=32)
+    chk.again('parse_segment(text, version, level) for level in (STRICT, TOLERANT); to_er7; validate', both_seg, sj, rs, 300)
     rm = vlib.pmap(both_msg, mj, chunk=8)
     rh = vlib.pmap(history, hj, chunk=32)
     # correspondence: the model under both levels (encoding + error list)
